@@ -48,22 +48,26 @@ def ref_ok(member) -> bool:
 
 
 def select_members(prop: str, tier: str, seed: int):
+    rot = QUICK_TRIVIA
+    n = len(rot)
+
+    def pick(ci, ki, triv):
+        if triv == "none":
+            return True
+        first = (ci + ki) % n
+        return rot.index(triv) in (first, (first + 1 + ki % (n - 1)) % n)
+
     if tier == "quick":
         # Quick: every (context, kind) pair without trivia, plus two of ten trivia configurations per
         # pair, rotated so that every (kind, configuration) and every (context, configuration) pair occurs
         # several times (a pairwise covering of context x kind x trivia).  Thorough: the full product.
-        rot = QUICK_TRIVIA
-        n = len(rot)
-
-        def pick(ci, ki, triv):
-            if triv == "none":
-                return True
-            first = (ci + ki) % n
-            return rot.index(triv) in (first, (first + 1 + ki % (n - 1)) % n)
-
         mem = family.family(["none"] + rot, pick=pick)
     else:
+        # Thorough: the full product at the quick length bound, and the quick selection one character deeper
+        deep = {m["id"] for m in family.family(["none"] + rot, pick=pick)}
         mem = family.family(list(family.TRIVIA))
+        for m in mem:
+            m["shallow"] = m["id"] not in deep
     if prop in ("C05", "C01", "C07", "C06"):
         mem += family.stack_family()
     if tier == "thorough":
@@ -91,7 +95,7 @@ def select_members(prop: str, tier: str, seed: int):
 
 
 def nks_for(prop: str, tier: str, rule: str, member) -> list[tuple[int, int]]:
-    nmax = 4 if tier == "quick" else 5
+    nmax = 4 if tier == "quick" or member.get("shallow") else 5
     main = rule == "r"
     if not main:
         nmax = 2 if tier == "quick" else 3
